@@ -6,6 +6,7 @@ C01 violation; every other disagreement with EnvOps.tla is an OBSERVATION.
 import copy
 import json
 import os
+import sys
 
 import tlc
 
@@ -31,9 +32,10 @@ def to_tree(obj):
 
 
 def project(env):
+    import schedrun
     from valjean.cosette.task import TaskStatus
     out = {}
-    for t, entry in env.dictionary.items():
+    for t, entry in schedrun.env_dict(env).items():      # the mapping behind the Env, whatever the attribute is called
         if not isinstance(entry, dict):
             out[t] = dict(status='corrupt', e=to_tree({}))
             continue
@@ -162,8 +164,33 @@ def run(ctx, wd, pid='C01'):
             note('EnvOps/%s' % clause, dict(op=c['op'], t=c['t'], u=c['u_py'], before=c['before'], after=c['after'], raised=c['exc']))
     ctx.count(evaluations=len(cases), traces=len(cases))
     ctx.cov['envops'] = dict(histories=n, random_operations=len(cases), observations=observations)
-    for key, v in sorted(observations.items()):
-        print('OBSERVATION (Env, outside the listed properties) %s: %d cases, e.g. %s' % (key, v['count'], json.dumps(v['example'], default=str)[:300]))
+    print_summary('EnvOps', 'envops', observations, strip='EnvOps/')
+
+
+def print_summary(module, name, observations, strip=''):
+    """The ONE line an extra module prints per run (nothing when there is nothing to observe): the classes with their counts,
+    most frequent first, at most 300 characters.  Count and smallest example of every class stay in the evidence
+    (ctx.cov[name]['observations'])."""
+    if not observations:
+        return
+    try:
+        '\u2014\u2026'.encode(getattr(sys.stdout, 'encoding', None) or 'ascii')
+        dash, dots = '\u2014', '\u2026'
+    except (UnicodeError, LookupError):
+        dash, dots = '--', '...'
+    head = 'OBSERVATION (%s, outside the listed properties) %d classes, %d cases: ' % (
+        module, len(observations), sum(v['count'] for v in observations.values()))
+    tail = ' %s details in evidence coverage.%s.observations' % (dash, name)
+    items = ['%s (%d)' % (k[len(strip):] if strip and k.startswith(strip) else k, v['count'])
+             for k, v in sorted(observations.items(), key=lambda kv: (-kv[1]['count'], kv[0]))]
+    room = 300 - len(head) - len(tail)
+    shown = []
+    for n, item in enumerate(items):
+        if len(', '.join(shown + [item])) + (len(dots) + 2 if n + 1 < len(items) else 0) > room:
+            shown.append(dots)
+            break
+        shown.append(item)
+    print(head + ', '.join(shown) + tail)
 
 
 def _plain(x):
@@ -193,9 +220,9 @@ def replay_case(case):
         if r['status'] not in ('none', 'corrupt'):
             from valjean.cosette.task import TaskStatus
             entry['status'] = TaskStatus[r['status']]
-        env.dictionary[t] = entry
+        env[t] = entry
     env.apply({case['t']: copy.deepcopy(case['u'])})
-    got = env.dictionary.get(case['t'], {})
+    got = schedrun.env_dict(env).get(case['t'], {})
 
     def readable(m, u):
         return all(k in m and (readable(m[k], v) if isinstance(v, dict) else m[k] == v) for k, v in u.items()) if isinstance(m, dict) else False
